@@ -233,8 +233,11 @@ def write_evidence(ctx, prop, build_info, audit_info, n_violations, wall):
         "wall_s": round(wall, 2),
         "violations": n_violations,
     }
-    os.makedirs(os.path.join(VERIF, "evidence"), exist_ok=True)
-    with open(os.path.join(VERIF, "evidence", ctx.pid + ".json"), "w") as f:
+    # VERIF_EVIDENCE_DIR: used by tools/seed.sh so that runs against a seeded change never overwrite
+    # the evidence of the unchanged tree
+    evdir = os.environ.get("VERIF_EVIDENCE_DIR") or os.path.join(VERIF, "evidence")
+    os.makedirs(evdir, exist_ok=True)
+    with open(os.path.join(evdir, ctx.pid + ".json"), "w") as f:
         json.dump(ev, f, indent=1, ensure_ascii=True)
 
 
